@@ -542,3 +542,40 @@ func RefCanon(o RefOptions) string {
 	return fmt.Sprintf("mtu=%d pfx=%s first=%s rdnss=%d:%s slla=%s tlla=%s dnssl=%d:%s ri=%s",
 		o.MTU, pf, first, o.RdnssLT, srv, sl, tl, o.DnsslLT, dn, ri)
 }
+
+// Boundary returns option areas that cross every known option type with every size 1..5 units and, in the byte that
+// the parsers use as a second length (prefix length of types 3 and 24, first label length of type 31, anything else:
+// first body byte), the values around every threshold the decoders test.  Each option is produced twice: alone (it ends
+// the area: a read past its declared size leaves the slice) and followed by a well-formed MTU option (a read past its
+// size stays inside the slice and silently takes foreign bytes).  The size field and the inner length deliberately
+// disagree in most combinations - that is the point (wave-7 seed C01-w7s2: route information with 2 units and a prefix
+// length of 72..128 was never produced by the consistent generators).
+func Boundary(r *rand.Rand) [][]byte {
+	inner := []byte{0, 1, 7, 8, 9, 15, 16, 17, 31, 32, 33, 48, 56, 63, 64, 65, 71, 72, 73, 80, 96, 104, 120, 127, 128, 129, 130, 192, 254, 255}
+	var out [][]byte
+	tail := MTU(1500).Bytes()
+	for _, t := range []byte{1, 2, 3, 5, 24, 25, 31, 99} {
+		for units := 1; units <= 5; units++ {
+			for _, v := range inner {
+				b := make([]byte, units*8)
+				r.Read(b)
+				b[0], b[1] = t, byte(units)
+				pos := 2
+				if t == 31 || t == 25 {
+					pos = 8 // DNSSL: first label length; RDNSS: first server byte
+				}
+				if pos < len(b) {
+					b[pos] = v
+				}
+				if t == 24 {
+					b[3] &^= 0x18 // keep the route preference legal half of the time, else the option is ignored
+					if r.Intn(2) == 0 {
+						b[3] |= byte(r.Intn(4)) << 3
+					}
+				}
+				out = append(out, b, append(append([]byte{}, b...), tail...))
+			}
+		}
+	}
+	return out
+}
